@@ -5,6 +5,7 @@ go 1.22
 require (
 	github.com/lindb/common v0.0.6
 	github.com/lindb/lindb v0.0.0
+	github.com/lindb/roaring v1.2.1
 )
 
 require (
@@ -25,7 +26,6 @@ require (
 	github.com/json-iterator/go v1.1.12 // indirect
 	github.com/klauspost/compress v1.17.1 // indirect
 	github.com/klauspost/cpuid v1.3.1 // indirect
-	github.com/lindb/roaring v1.2.1 // indirect
 	github.com/lithammer/go-jump-consistent-hash v1.0.2 // indirect
 	github.com/mattn/go-isatty v0.0.19 // indirect
 	github.com/mattn/go-runewidth v0.0.14 // indirect
